@@ -12,7 +12,7 @@ package announce
 
 // Data-structure invariant of a Receiver built by NewReceiver: the done
 // channel exists and is closed only once the receiver is marked closed.
-//@ spec func recvOK(r val) bool = r != nil && r.done != nil && lruOK(r.announceCache) && (closed(r.done) ==> r.closed) && r.outChan != nil && !closed(r.outChan) && r.done != r.outChan
+//@ spec func recvOK(r val) bool = r != nil && r.done != nil && lruOK(r.announceCache) && (closed(r.done) ==> r.closed) && r.outChan != nil && !closed(r.outChan) && r.done != r.outChan && (r.resend ==> r.sender != nil && r.sender.topic != nil)
 
 // Close: idempotent; every return leaves the mutex as it found it (implicit
 // balance obligation); close(done) at most once.
@@ -53,7 +53,7 @@ package announce
 // the check passed and resending was asked for.
 //@ func (*Receiver).handleAnnounce
 //@   property C16 C09
-//@   requires recvOK(r) && !held(r.announceMutex) && ctx != nil
+//@   requires recvOK(r) && !held(r.announceMutex) && ctx != nil && (resend ==> r.resend)
 //@   modifies state(r.announceCache)
 //@   ensures recvOK(r)
 //@   shutdown done
@@ -86,10 +86,20 @@ package announce
 //@   ensures-local result == nil ==> count("call:update") == 1
 //@   ensures old(r.closed) ==> result != nil
 
-// Network send through pubsub; changes pubsub-internal state only.
+// Republication (C09): the message sent on carries the announced CID, the announced addresses and, as
+// its original-peer field, the publisher of the announcement; nothing of the receiver changes.
 //@ func (*Receiver).republish
-//@   trusted "republication through the p2p sender: only pubsub-internal state changes"
-//@   pure
+//@   property C09
+//@   requires r != nil && r.sender != nil && r.sender.topic != nil && ctx != nil
+//@   readonly
+//@   ghost orig := 0
+//@   at call String#1: assert arg0 == amsg.PeerID
+//@   at call String#1: after ghost orig := str(result)
+//@   at call SetAddrs#1: assert arg1 == amsg.Addrs
+//@   at call Send#1: assert arg0 == r.sender
+//@   at call Send#1: assert arg2.Cid == amsg.Cid
+//@   at call Send#1: assert str(arg2.OrigPeer) == orig
+//@   ensures-local count("call:Send") == 1 && count("call:SetAddrs") == 1 && before("call:SetAddrs", "call:Send")
 
 // ---------------------------------------------------------------------------
 // C09: the duplicate filter is an LRU set of at most max strings.
@@ -114,6 +124,9 @@ package announce
 //@ func NewReceiver
 //@   property C09 C16
 //@   at call newStringLRU#1: assert arg0 == 64
+// ASSUMED about the option mechanism of p2psender.New (options are applied through function values):
+// a sender created WithTopic(t), t != nil, publishes to a topic.
+//@   at call p2psender.New#1: after assume result1 == nil ==> result0 != nil && result0.topic != nil
 //@   ensures result1 == nil ==> recvOK(result0) && !held(result0.announceMutex) && !result0.closed
 //@   ensures result1 == nil ==> (result0.cancelWatch != nil ==> result0.watchDone != nil && result0.topicSub != nil) && (result0.cancelPubsub != nil ==> result0.topic != nil)
 //@   ensures result1 == nil ==> isfresh(result0) && isfresh(result0.done) && isfresh(result0.outChan)
